@@ -276,6 +276,22 @@ def rule_resolver_values(cx, rid):
     return r
 
 
+def evaluator_no_alias(r, pm, key_prefix="_eval_const"):
+    """the constant evaluator never hands out a mutable object of the environment: for an environment binding a name to a
+    list, every expression form that passes a value through unchanged (name, conditional, and/or, parenthesised) either
+    is rejected or yields a different object; otherwise `c = a` makes two tracked lists one Python list and a later
+    `c.append(..)` silently changes what is folded for `a` (its len(), its elements)"""
+    evc = pm.func("_eval_const")
+    for src in ("a", "(a)", "a if True else 0", "0 or a", "a and a", "[a][0]", "a + []", "a * 1"):
+        shared = [1, 2, 3]
+        try:
+            out = dl.Interp(pm, opaque={"ast.parse": ast.parse}).call(evc, [src, {"a": shared}])
+        except dl.Unsupported as e:
+            raise AnalysisError(f"_eval_const left the evaluable subset on `{src}`: {e}")
+        ok = out.kind == "raise" or out.value is not shared
+        r.check(ok, f"{key_prefix}/environment-list-returned-by-reference", (pm, evc), f"_eval_const({src!r}) with `a` bound to a tracked list returns that very list object: the value stored for another name aliases it, so appends through one name change the folded length/elements of the other", sample=f"{src}: {'rejected' if out.kind == 'raise' else 'fresh value'}")
+
+
 def list_size_guard_ok(pm) -> bool:
     """re-assignment of a declared list compares the *previously recorded* length with the length of the new value and
     raises on a mismatch; both operands are read before the record is updated"""
@@ -523,6 +539,7 @@ def run(cx):
     # ---- C03-FRESH ---------------------------------------------------------------------------
     r = cx.rule("C03-FRESH", "a list baked into an IR node (flash pattern, glyph bitmap) is a fresh object built for that statement, never the list tracked in the constant environment: a later append/remove on the script's list cannot rewrite a value already baked", floor=2)
     psl = pm.func("_parse_simple_lines")
+    evaluator_no_alias(r, pm)
 
     def fresh(e, fn, depth=0):
         """None if fresh, else the reason text"""
